@@ -274,7 +274,7 @@ class Pool:
                 raise InfraError(f"pool model {k}: class {got} vs spec {want}")
 
     def _order_string(self, cls):
-        return f"{None if cls is type(None) else cls} []"
+        return str(None if cls is type(None) else cls)      # `_UnionNormType._make_orderable`: str(origin) first
 
     def _univ(self):
         strings = sorted({self._order_string(c) for _, c in self.cls_order})
@@ -826,8 +826,11 @@ def suite_hint_eq(ctx: Ctx, pool: Pool, real: Real, drv):
         if eq and not neq:
             # the soundness condition of lru_cache(normalize_type) and of Retort._loader_cache[tp]
             ctx.fail(f"norm-congruence:{pool.family(a)}",
-                     f"{ha!r} == {hb!r} but they normalise to different norms ({na!r} vs {nb!r}): whichever is "
-                     f"requested first decides the behaviour of the other", case)
+                     f"pool hints {a} == {b} ({ha!r}) but they normalise to different norms "
+                     f"({[getattr(x, 'origin', x) for x in na.args]} vs {[getattr(x, 'origin', x) for x in nb.args]}, "
+                     f"ids {[id(getattr(x, 'origin', x)) for x in na.args]} vs "
+                     f"{[id(getattr(x, 'origin', x)) for x in nb.args]}): whichever is requested first decides the "
+                     f"behaviour of the other", case)
         if eq and neq and [x.source for x in getattr(na, "args", ()) if hasattr(x, "source")] and na.origin is Union:
             if [x.origin for x in na.args] != [x.origin for x in nb.args]:
                 ctx.fail(f"norm-congruence:{pool.family(a)}", f"{ha!r} / {hb!r}: union case order differs", case)
@@ -1031,7 +1034,7 @@ def run(ctx: Ctx):
         # 17^3 sequences are too many for both directions: keep every third
         cases = [c for k, c in enumerate(cases) if c["gen"] != "exhaustive-3" or k % 3 == ctx.seed % 3]
     run_cases(ctx, pool, real, drv, cases)
-    total = ctx.budget(380, 9000)
+    total = ctx.budget(380, 6500)
     for lo in range(0, total, 500):
         run_cases(ctx, pool, real, drv, [random_case(pool, ctx.rng, 12) for _ in range(min(500, total - lo))])
     wide_suite(ctx, pool, real, ctx.budget(250, 4000), directed=True)
